@@ -799,3 +799,56 @@ def probe_c16(ctx, pf):
         if got != "ok":
             ctx.violation(f"c16:{cname}:NL-form", f"{cname}{tuple(nl)} raises {got}", {"cls": cname})
     return n
+
+
+# ------------------------------------------------------------------ C09
+def probe_c09(ctx, pf):
+    """random edit/solve histories on real objects; then, for every live variable, the next solve is compared with a fresh start"""
+    import copy as _copy
+    from suites import statesuite as S
+    n = 0
+    rng = random.Random(f"c09-{ctx.seed}")
+    nh = 40 if ctx.tier == "quick" else 300
+    for k in range(nh):
+        cname = S.GRIDS[k % len(S.GRIDS)]
+        world = S.World(pf, rng, cname, "bc_default" if k % 2 else "bc_passed")
+        length = rng.randint(3, 10 if ctx.tier == "quick" else 25)
+        ops, exp, desc, err = S.gen_history(rng, world, length)
+        L = {"cls": cname, "history": desc}
+        if err:
+            ctx.violation(f"c09:{cname}:raise", f"{cname}: history raised: {err}", L)
+            continue
+        D = world.D
+        for vi, v in enumerate(world.vars):
+            try:
+                with np.errstate(all="ignore"):
+                    fresh = pf.CellVariable(world.mesh, np.array(v.value), _copy.deepcopy(v.BCs))
+                    a = v.copy() if False else v
+                    pf.solvePDE(a, [pf.transientTerm(a, 0.7, 1.0), -pf.diffusionTerm(D)])
+                    pf.solvePDE(fresh, [pf.transientTerm(fresh, 0.7, 1.0), -pf.diffusionTerm(D)])
+                n += 1
+                if np.all(np.isfinite(fresh._value)) and rel(a._value, fresh._value) > 1e-9:
+                    ctx.violation(f"c09:{cname}:solve-vs-fresh", f"{cname}: after a history of {len(desc)} operations the next solvePDE on variable {vi} differs from a fresh start",
+                                  dict(L, variable=vi))
+                    break
+                e1 = pf.solveExplicitPDE(a, 0.01, np.zeros(a._value.size))
+                e2 = pf.solveExplicitPDE(fresh, 0.01, np.zeros(a._value.size))
+                n += 1
+                if rel(e1._value, e2._value) > 1e-9:
+                    ctx.violation(f"c09:{cname}:explicit-vs-fresh", f"{cname}: solveExplicitPDE after a history differs from a fresh start", dict(L, variable=vi))
+                    break
+                # a variable returned by the explicit solver remains usable by the implicit solver
+                pf.solvePDE(e1, [pf.transientTerm(e1, 0.7, 1.0), -pf.diffusionTerm(D)])
+                n += 1
+            except Exception as ex:
+                ctx.violation(f"c09:{cname}:solve-raise", f"{cname}: solve after a history raised {type(ex).__name__}: {ex}", dict(L, variable=vi))
+                break
+        # copies are independent of their originals
+        v = world.vars[0]
+        c = v.copy()
+        before = (np.array(v._value), [np.array(getattr(v.BCs, s).c) for s in ("left", "right")])
+        c.value = c.value + 1.0; c.BCs.left.c = 123.0; c.BCs.right.a = 7.0
+        n += 1
+        if not np.array_equal(before[0], v._value) or any(not np.array_equal(x, np.array(getattr(v.BCs, s).c)) for x, s in zip(before[1], ("left", "right"))):
+            ctx.violation(f"c09:{cname}:copy-independent", f"{cname}: modifying a copy changed the original", L)
+    return n
